@@ -118,9 +118,11 @@ def run(check: Check) -> None:
                         yield f"{tag}: same cells for all values", conj([same_cell(c[i, j], rc[i, j]) for i in range(c.shape[0]) for j in range(c.shape[1])])
 
             def rep(model, label, formula=formula, efr=efr, drop=drop):
-                p = {"kind": "c05_agree", "formula": formula, "efr": efr, "drop": drop,
-                     "a": [model_value(model, z3.Real(f"a{i}")) for i in range(n)], "b": [model_value(model, z3.Real(f"b{i}")) for i in range(n)]}
-                for cand in (p, dict(p, a=A0, b=B0)):
+                p = {"kind": "c05_agree", "formula": formula, "efr": efr, "drop": drop, "a": A0, "b": B0}
+                cands = [p]
+                if model is not None:  # (model is None when the code under test raised on symbolic input: generic point only)
+                    cands.insert(0, dict(p, a=[model_value(model, z3.Real(f"a{i}")) for i in range(n)], b=[model_value(model, z3.Real(f"b{i}")) for i in range(n)]))
+                for cand in cands:
                     bad = replays.run(cand)
                     if bad:
                         return ("agree", bad, cand)
